@@ -146,6 +146,12 @@ func checkResume(c *Ctx, p *Prog, R *BusRoles) {
 		}
 		c.Check(idOK, "C12.R2", "SubscribeWithReplay/"+cl.name+"/saves-under-its-own-id", p.Pos(save.Pos()), "the offset is saved under the caller's subscription id", "the offset is not saved under the caller's subscription id (ids no longer progress independently)")
 	}
+	// the live registration happens only after the replay has finished: the replay calls
+	// the user's handler directly (outside the dispatch function, so outside a Sequential
+	// registration's mutex and recover scope); were the handler already registered, a
+	// live delivery could overlap it
+	okAfter := reaches(replay, subscribe) && !reaches(subscribe, replay)
+	c.Check(okAfter, "C12.R3", "SubscribeWithReplay/live-registration-after-replay", p.Pos(subscribe.Pos()), "Subscribe is called only after Replay has returned", "the live handler is registered before (or while) the replay runs, but the replay invokes the user's handler directly: a Sequential handler can run twice at once (live delivery overlapping a replayed event) and events can be seen out of log order")
 	// R4 replay-to-live hand-off
 	{
 		// a mechanism excluding appends between the replay's last read and the live
